@@ -353,8 +353,19 @@ def gen_model(rng, stream="main", size=None):
         b.sol["der(%s)" % x] = val
         b.kinds.append("der-" + form)
         if r.random() < 0.6 or stream == "affineinit":
-            b.inits.append(r.choice(["%s = %s" % (x, lit(b.sol[x]) if b.sol[x] >= 0 else par(lit(b.sol[x]))),
-                                     "%s - %s = 0" % (x, lit(b.sol[x]) if b.sol[x] >= 0 else par(lit(b.sol[x])))]))
+            xv = b.sol[x]
+            pc = r.choice(b.pnames + b.cnames)
+            rest = xv - b.sol[pc]
+            forms = ["%s = %s" % (x, lit(xv) if xv >= 0 else par(lit(xv))),
+                     "%s - %s = 0" % (x, lit(xv) if xv >= 0 else par(lit(xv))),
+                     # initial equations that mention a parameter / constant (they are substituted by the passes too)
+                     "%s = %s + %s" % (x, pc, lit(rest) if rest >= 0 else par(lit(rest))),
+                     "%s - %s = %s" % (x, pc, lit(rest) if rest >= 0 else par(lit(rest)))]
+            if b.unknowns:
+                w = r.choice(b.unknowns)
+                d = xv - b.sol[w]
+                forms.append("%s = %s + %s" % (x, w, lit(d) if d >= 0 else par(lit(d))))
+            b.inits.append(r.choice(forms))
     if stream == "delay":
         # a delayed expression that mentions a parameter (finding C15-F2 when parameter values are replaced)
         w = b.ref()
